@@ -60,7 +60,7 @@ SitIn(p) == /\ ~inn[p] /\ inn' = [inn EXCEPT ![p] = TRUE]
             /\ UNCHANGED <<status, gc, hand, gblind, blind, released, gate, opens, cont, chips, dealt, survivors, ext, closedBetween, opened2>>
 
 (* ---- the gate (abstract: all signalled, or its 2 s timeout) ------------ *)
-GateFire == /\ gate.armed
+GateFire == /\ gate.armed /\ opens < 2      \* (bound of the model: at most two callbacks in flight)
             /\ gate' = [gate EXCEPT !.armed = FALSE]
             /\ opens' = IF Cardinality(gate.parts) > 1 THEN opens + 1 ELSE opens
             /\ UNCHANGED <<status, gc, hand, gblind, blind, released, cont, chips, inn, dealt, survivors, ext, closedBetween, opened2>>
